@@ -217,10 +217,65 @@ func (l *vipListener) setHeld(b bool) {
 	l.cond.Broadcast()
 }
 
+// the local stream of a shard as far as the intra-proxy code sees it: the two channels it registered (capacity 1, so that one
+// unconsumed entry is back-pressure) and a consumer that the schedule can stall
 type vipLocal struct {
-	msgs  chan RoutedMessage
-	acks  chan RoutedAck
-	regAt time.Time
+	msgs    chan RoutedMessage
+	acks    chan RoutedAck
+	regAt   time.Time
+	mu      sync.Mutex
+	stalled bool
+	gate    chan struct{} // closed while the consumer runs
+	kick    chan struct{}
+	pending []int64 // ids handed to a stream towards this shard while its consumer was stalled
+}
+
+func vipNewLocal() *vipLocal {
+	l := &vipLocal{msgs: make(chan RoutedMessage, 1), acks: make(chan RoutedAck, 1), gate: make(chan struct{}), kick: make(chan struct{}, 1)}
+	close(l.gate)
+	return l
+}
+func (l *vipLocal) isStalled() bool {
+	l.mu.Lock()
+	defer l.mu.Unlock()
+	return l.stalled
+}
+func (l *vipLocal) curGate() chan struct{} {
+	l.mu.Lock()
+	defer l.mu.Unlock()
+	return l.gate
+}
+
+// stall stops the consumer (called when nothing is on its way to the channels); returns when the consumer waits at its gate
+func (l *vipLocal) stall(bound time.Duration) bool {
+	l.mu.Lock()
+	if l.stalled {
+		l.mu.Unlock()
+		return true
+	}
+	l.stalled = true
+	l.gate = make(chan struct{})
+	l.mu.Unlock()
+	select {
+	case l.kick <- struct{}{}:
+	default:
+	}
+	deadline := time.Now().Add(bound)
+	for len(l.kick) > 0 {
+		if time.Now().After(deadline) {
+			return false
+		}
+		time.Sleep(50 * time.Microsecond)
+	}
+	return true
+}
+func (l *vipLocal) unstall() {
+	l.mu.Lock()
+	if l.stalled {
+		l.stalled = false
+		close(l.gate)
+	}
+	l.mu.Unlock()
 }
 
 type vipInst struct {
@@ -363,6 +418,9 @@ func (h *vipHarness) teardown() {
 	}
 	for _, in := range insts {
 		in.lis.setHeld(false)
+		for _, l := range in.local {
+			l.unstall()
+		}
 	}
 	h.releaseAll()
 	for _, in := range insts {
@@ -695,9 +753,18 @@ func (h *vipHarness) unsettled() []string {
 		h.mu.Unlock()
 		self := vipGID()
 		nrecv, busy := 0, 0
+		handoff := map[int64]string{} // goroutines inside a blocking hand-over to a local channel
 		for _, b := range strings.Split(vipStacks(), "\n\n") {
 			if strings.Contains(b, "ensureStream.") {
 				nrecv++
+			}
+			if strings.Contains(b, "recvReplicationMessages.func1") || strings.Contains(b, "DeliverAckToShardOwner.func1") {
+				f := strings.Fields(b)
+				if len(f) > 1 && f[0] == "goroutine" {
+					if id, err := strconv.ParseInt(f[1], 10, 64); err == nil {
+						handoff[id] = "x"
+					}
+				}
 			}
 			// a goroutine of the proxy package that is about to run (or waits for a lock): something is still happening that
 			// has no other visible mark yet (e.g. a handler whose shutdown channel has just been closed)
@@ -719,6 +786,29 @@ func (h *vipHarness) unsettled() []string {
 		}
 		if busy > 0 {
 			why = append(why, fmt.Sprintf("busy:%d", busy))
+		}
+		// back-pressure is a stable state only while the consumer is stalled: otherwise the channel drains and the hand-over ends
+		for _, n := range h.names {
+			in := h.inst[n]
+			for sh, l := range in.local {
+				if !l.isStalled() && (len(l.msgs) > 0 || len(l.acks) > 0) {
+					why = append(why, fmt.Sprintf("draining:%s/%d", n, sh))
+				}
+			}
+			for _, c := range in.clis {
+				if c.state == "run" && handoff[c.gid] != "" {
+					if l := in.local[vipNum(c.r.targetShardID)]; l == nil || !l.isStalled() {
+						why = append(why, "handing-over:"+n)
+					}
+				}
+			}
+			for _, w := range in.streams {
+				if (w.state == "serve" || w.state == "park") && handoff[w.gid] != "" {
+					if l := in.local[w.s]; l == nil || !l.isStalled() {
+						why = append(why, "ack-handing-over:"+n)
+					}
+				}
+			}
 		}
 	}
 	sort.Strings(why)
@@ -772,6 +862,12 @@ func (h *vipHarness) drain(in *vipInst, sh int, l *vipLocal, stop chan struct{})
 	defer h.wg.Done()
 	for {
 		select {
+		case <-stop:
+			return
+		case <-l.curGate():
+		}
+		select {
+		case <-l.kick: // look at the gate again
 		case m := <-l.msgs:
 			a := vipArrival{Inst: in.name, Kind: "wm", Chan: sh, T: sh, S: vipNum(m.SourceShard)}
 			if ms := m.Resp.GetMessages(); ms != nil {
@@ -935,7 +1031,7 @@ func (h *vipHarness) exec(c vipCmd) map[string]interface{} {
 			ev["ok"] = false
 			break
 		}
-		l := &vipLocal{msgs: make(chan RoutedMessage, 64), acks: make(chan RoutedAck, 64)}
+		l := vipNewLocal()
 		in.local[c.Sh] = l
 		h.wg.Add(1)
 		go h.drain(in, c.Sh, l, h.stop)
@@ -950,9 +1046,23 @@ func (h *vipHarness) exec(c vipCmd) map[string]interface{} {
 			break
 		}
 		delete(in.local, c.Sh)
+		l.unstall()
 		in.sm.RemoveRemoteSendChan(vipShard(c.Sh), l.msgs)
 		in.sm.RemoveLocalAckChan(vipShard(c.Sh), l.acks)
 		in.sm.UnregisterShard(vipShard(c.Sh), l.regAt)
+	case "Stall":
+		// back-pressure: the shard's local stream stops taking entries out of its channels
+		if l, have := in.local[c.Sh]; !have {
+			ev["ok"] = false
+		} else if !l.stall(h.wait) {
+			ev["stuck"] = "stall"
+		}
+	case "Unstall":
+		if l, have := in.local[c.Sh]; !have || !l.isStalled() {
+			ev["ok"] = false
+		} else {
+			ev["missing"] = h.release(l)
+		}
 	case "SetView":
 		h.mergeView(in, c.J, c.Set)
 	case "Leave":
@@ -989,6 +1099,15 @@ func (h *vipHarness) exec(c vipCmd) map[string]interface{} {
 		in.sm.intraMgr.ReconcilePeerStreams("")
 	case "Freeze":
 		// gossip has converged: every instance holds every other instance's real state; nothing is held back any more
+		miss := []int64{}
+		for _, a := range h.names {
+			for _, l := range h.inst[a].local {
+				if l.isStalled() {
+					miss = append(miss, h.release(l)...)
+				}
+			}
+		}
+		ev["missing"] = miss
 		for _, a := range h.names {
 			st := h.inst[a].sm.delegate.LocalState(false)
 			for _, b := range h.names {
@@ -1054,6 +1173,12 @@ func (h *vipHarness) exec(c vipCmd) map[string]interface{} {
 			}
 		}
 		ev["ownerHas"] = ownerHas
+		var ownerLocal *vipLocal
+		if o, ok := h.inst[owner]; ok {
+			ownerLocal = o.local[shard]
+		}
+		stalled := ownerLocal != nil && ownerLocal.isStalled()
+		ev["stalled"] = stalled
 		var res bool
 		t0 := time.Now()
 		if c.A == "RouteMsg" {
@@ -1068,7 +1193,12 @@ func (h *vipHarness) exec(c vipCmd) map[string]interface{} {
 			res = in.sm.DeliverAckToShardOwner(vipShard(c.S), a, channel.NewShutdownOnce(), log.NewNoopLogger(), id, true)
 		}
 		ev["result"], ev["ms"] = res, time.Since(t0).Milliseconds()
-		if res && ownerHas {
+		if res && ownerHas && stalled {
+			// the consumer is stalled: the entry stays in the channel / the stream until it is released (checked at Unstall)
+			ownerLocal.mu.Lock()
+			ownerLocal.pending = append(ownerLocal.pending, id)
+			ownerLocal.mu.Unlock()
+		} else if res && ownerHas {
 			// bounded wait for the arrival at the owner's local channel; an expired wait is the observation "not arrived"
 			deadline := time.Now().Add(h.wait)
 			for {
@@ -1090,6 +1220,38 @@ func (h *vipHarness) exec(c vipCmd) map[string]interface{} {
 		ev["ok"] = false
 	}
 	return ev
+}
+
+// release lets the stalled consumer run again and waits (bounded) until everything that was handed over meanwhile has come out
+// of the local channels at least once; returns the ids that have not
+func (h *vipHarness) release(l *vipLocal) []int64 {
+	l.unstall()
+	l.mu.Lock()
+	pending := l.pending
+	l.pending = nil
+	l.mu.Unlock()
+	missing := []int64{}
+	deadline := time.Now().Add(h.wait)
+	for {
+		missing = missing[:0]
+		h.mu.Lock()
+		for _, id := range pending {
+			got := false
+			for _, a := range h.arrivals {
+				if a.ID == id && a.Kind != "wm" {
+					got = true
+				}
+			}
+			if !got {
+				missing = append(missing, id)
+			}
+		}
+		h.mu.Unlock()
+		if len(missing) == 0 || time.Now().After(deadline) {
+			return missing
+		}
+		time.Sleep(100 * time.Microsecond)
+	}
 }
 
 func (h *vipHarness) step(c vipCmd) {
